@@ -77,6 +77,21 @@ pub fn gen_text(rng: &mut Rng, cols: usize) -> String {
                     }
                 }
                 2 => *rng.pick(&['a', ' ', '\u{a0}', '\u{e9}', '\u{4e00}', '\u{3000}', '~', '\u{7f}', '\u{2003}']),
+                3 => {
+                    // any printable scalar value, structured: plane x interesting low 16 bits
+                    let plane = *rng.pick(&[0u32, 0, 0, 1, 2, 3, 14, 15, 16]);
+                    let low = match rng.below(5) {
+                        0 => rng.below(0x100) as u32,
+                        1 => 0xa0 + rng.below(0x60) as u32,
+                        2 => *rng.pick(&[0x100u32, 0x2000, 0x2028, 0x3000, 0xd7ff, 0xe000, 0xfeff, 0xfffd, 0xfffe, 0xffff, 0x7f, 0x9f, 0xa0, 0x20, 0x7e]),
+                        _ => rng.below(0x10000) as u32,
+                    };
+                    let cp = (plane << 16) | low;
+                    match char::from_u32(cp) {
+                        Some(c) if cp >= 0x20 && !(0x7f..0xa0).contains(&cp) || cp == 0x7f => c,
+                        _ => 'y',
+                    }
+                }
                 _ => (b'a' + ((i * 7 + j) % 26) as u8) as char,
             };
             s.push(c);
@@ -285,6 +300,26 @@ pub fn run_stream<W: Write>(w: &mut W, id: usize, rng: &mut Rng, case: &Case) {
         lines_rec(a2.lines(), &mut o);
         lines_rec(u.lines(), &mut o);
         write!(o, "{}", coll).unwrap();
+        // third run: some pieces go through the char-at-a-time Vt::feed (which hands out nothing); whatever scrolled
+        // off meanwhile must come out of a later feed_str - nothing may be dropped on the way
+        let mut a3 = build(case.cols, case.rows, Some(limit));
+        let mut drained3: Vec<Line> = Vec::new();
+        let last = pieces.len() - 1;
+        for (i, p) in pieces.iter().enumerate() {
+            if i != last && rng.chance(45) {
+                for c in p.chars() {
+                    a3.feed(c);
+                }
+            } else {
+                drained3.extend(a3.feed_str(p).scrollback);
+            }
+        }
+        drained3.extend(a3.feed_str("").scrollback);
+        write!(o, "\nX14 {} ", limit).unwrap();
+        lines_rec(&drained3, &mut o);
+        lines_rec(a3.lines(), &mut o);
+        lines_rec(u.lines(), &mut o);
+        write!(o, "1").unwrap();
         o
     }));
     match r {
